@@ -658,6 +658,12 @@ class FT:
                                  % (CLASS_TAG[c], i, CLASS_TAG[c], i, a), ")"))
                 return "VNone"
             fail(n, "append on a non-local")
+        if m == "format":
+            if n.keywords or any(isinstance(x, ast.Starred) for x in n.args): fail(n, "format with keywords")
+            return "(py_format fo %s [%s])" % (self.expr(rv), "; ".join(self.expr(x) for x in n.args))
+        if m == "replace" and not self.tr.method_candidates(self.mod, m):
+            a2 = self.plain_args(n, 2)
+            return "(py_str_replace %s %s %s)" % (self.expr(rv), a2[0], a2[1])
         builtin = {"strip": ("str_meth str_strip", 0), "capitalize": ("str_meth str_capitalize", 0),
                    "keys": ("dict_keys", 0), "index": ("list_index fo", 1),
                    "toordinal": ("date_toordinal", 0), "upper": ("str_meth (smap upper_c)", 0),
